@@ -12,7 +12,11 @@
        in order and memory is unchanged,
      - exact forms: success iff the full count was transferred (judged when count > 0 or the start
        address lies inside the target; a hard error takes precedence); up-to forms: Ok(n) has
-       n = bytes moved; no form moves more than the requested count. *)
+       n = bytes moved; no form moves more than the requested count;
+     - PROGRESS ("the exact forms return success precisely when the full count was transferred", "any other stream
+       error ends the transfer"): an exact form may end WITHOUT success only after a hard stream error, after a call
+       that answered zero bytes (end of stream / write-zero), when the stream cannot supply the count at all, or at
+       the end of the mapped range; it may not give up while the stream still delivers ([progress_ok]). *)
 From VM Require Import Prelude.MachInt Prelude.Outcome Prelude.Tok Prelude.C1314List Impl.Io Impl.IoGuest.
 
 Inductive target := TSlice (soff slen : N) | TRegion (r : region) | TGuest (L : list region).
@@ -65,7 +69,8 @@ Fixpoint flat_read (t : target) (m : list N) (a : N) (n : nat) {struct n} : opti
       end
   end.
 
-Definition ok_C14 (c : case14) (o : obs14) : bool :=
+(* the conservation / result-kind part *)
+Definition ok_C14_core (c : case14) (o : obs14) : bool :=
   let t := c_target c in
   let made := calls_made (c_script c) (o_calls o) in
   let hard := existsb is_hard made in
@@ -90,3 +95,35 @@ Definition ok_C14 (c : case14) (o : obs14) : bool :=
       else
         negb (o_rk o =? 1) && (if o_rk o =? 0 then o_a o =? o_moved o else true))
   && (o_moved o <=? c_count c).                     (* never more than the requested count *)
+
+(* ---- progress of the exact forms.  [made]: the behaviours of the calls the stream received; [left]: how many
+   bytes the stream could still deliver / take after the transfer (None: no bound - a scripted writer, a Vec, a file).
+   An exact form that did not succeed and saw no hard error must have one of these excuses:
+     the mapped range ended where the transfer stopped (the next target address is not mapped);
+     the request was refused before any call because its range does not lie inside the target;
+     the last call answered zero bytes (scripted Zero / Short 0 - after the script a scripted stream answers Zero);
+     the stream cannot supply / take the full count (what it moved plus what it has left is less than the count). *)
+Definition zeroish (b : beh) : bool := match b with Zero => true | Short k => k =? 0 | _ => false end.
+(* (written with [if]: no unary number is built from a count larger than the memory, also under call-by-value) *)
+Definition fully_mapped (t : target) (m : list N) (addr count : N) : bool :=
+  if count <=? nlen m then match flat_read t m addr (N.to_nat count) with Some _ => true | None => false end
+  else false.
+Definition progress_ok (t : target) (m : list N) (addr count moved calls : N) (made : list beh) (left : option N) : bool :=
+  match idx_of t (addr + moved) with None => true | Some _ => false end
+  || ((moved =? 0) && (calls =? 0) && negb (fully_mapped t m addr count))
+  || match made with [] => false | _ => zeroish (last made Zero) end
+  || match left with Some l => l + moved <? count | None => false end.
+(* when the clause applies: exact form, no success, no hard error among the calls, and (as for the Ok-iff-full
+   clause) count > 0 or a start address inside the target *)
+Definition progress_applies (t : target) (addr count : N) (op : op14) (rk : N) (made : list beh) : bool :=
+  is_exact op && negb (rk =? 1) && negb (existsb is_hard made)
+  && ((0 <? count) || match idx_of t addr with Some _ => true | None => false end).
+
+Definition progress14 (c : case14) (o : obs14) : bool :=
+  let made := calls_made (c_script c) (o_calls o) in
+  if progress_applies (c_target c) (c_addr c) (c_count c) (c_op c) (o_rk o) made
+  then progress_ok (c_target c) (c_mem c) (c_addr c) (c_count c) (o_moved o) (o_calls o) made
+         (if is_read (c_op c) then Some (nlen (c_src c) - o_moved o) else None)
+  else true.
+
+Definition ok_C14 (c : case14) (o : obs14) : bool := ok_C14_core c o && progress14 c o.
